@@ -82,20 +82,29 @@ class HTTPProxyConnectionPool(ConnectionPool):
 
         if connection.closed():
             _logger.debug('Connecting to proxy.')
-            yield from connection.connect()
 
-            if tunnel:
-                yield from self._establish_tunnel(connection, (host, port))
+            try:
+                yield from connection.connect()
 
-            if use_ssl:
-                ssl_connection = yield from connection.start_tls(self._ssl_context)
-                ssl_connection.proxied = True
-                ssl_connection.tunneled = True
+                if tunnel:
+                    yield from self._establish_tunnel(connection, (host, port))
 
-                self._connection_map[ssl_connection] = connection
-                connection.wrapped_connection = ssl_connection
+                if use_ssl:
+                    ssl_connection = yield from connection.start_tls(self._ssl_context)
+                    ssl_connection.proxied = True
+                    ssl_connection.tunneled = True
 
-                return ssl_connection
+                    self._connection_map[ssl_connection] = connection
+                    connection.wrapped_connection = ssl_connection
+
+                    return ssl_connection
+            except BaseException:
+                # The caller never sees this connection: give it back
+                # to the pool instead of leaving it checked out forever.
+                _logger.debug('Proxy connection setup failed.')
+                connection.close()
+                self.no_wait_release(connection)
+                raise
 
         if connection.wrapped_connection:
             ssl_connection = connection.wrapped_connection
